@@ -40,20 +40,20 @@ func bdnOne(seed int64, mode string) bdnResult {
 	s := newSession(beh, seed, false)
 	defer s.close()
 	init := map[string]int{}
-	deadline := time.Now().Add(2 * time.Second)
+	deadline := time.Now().Add(10 * time.Second)
 	for (init["version"] == 0 || !s.gotPing) && time.Now().Before(deadline) {
 		s.collect(0, 20*time.Millisecond, init)
 	}
 	step := func(class string) bool {
-		if !s.write(s.build(class), 2*time.Second) {
+		if !s.write(s.build(class), 10*time.Second) {
 			return false
 		}
 		n := s.rng.Uint64()
-		if !s.write(wireMessage(wire.NewMsgPing(n)), 2*time.Second) {
+		if !s.write(wireMessage(wire.NewMsgPing(n)), 10*time.Second) {
 			return false
 		}
 		out := map[string]int{}
-		pong, _ := s.collect(n, 2*time.Second, out)
+		pong, _ := s.collect(n, 10*time.Second, out)
 		return pong
 	}
 	if !step("version") || !step("verack") {
@@ -61,7 +61,11 @@ func bdnOne(seed int64, mode string) bdnResult {
 		return res
 	}
 	time.Sleep(2 * time.Millisecond)
-	if !step("hdrBSV") || !s.node.IsReady() {
+	verified := step("hdrBSV")
+	for w := time.Now().Add(5 * time.Second); verified && !s.node.IsReady() && time.Now().Before(w); {
+		time.Sleep(time.Millisecond) // the ready flag is set by the handshake goroutine
+	}
+	if !verified || !s.node.IsReady() {
 		res.Msg = "harness: node not ready after verification"
 		return res
 	}
